@@ -11,6 +11,8 @@ package harness
 
 import (
 	"fmt"
+	"github.com/cosmos/gogoproto/proto"
+	"github.com/sge-network/sge/app"
 	"math/big"
 	"sort"
 	"strconv"
@@ -1678,7 +1680,8 @@ func (s *rwHist) stepOnce() {
 // runReward: VERIF_REWARD_FIXED=1 tells the model driver to run the variant with the patched validation
 // (repo_patches/reward_negative_components.diff); use it together with a patched repository.
 func runReward(seed uint64, n int, out *Out) {
-	out.Op("CFG fixed %d", b2i(envInt("VERIF_REWARD_FIXED", 0) == 1))
+	out.Op("CFG fixed %d", b2i(rewardFixedVariant()))
+	out.Op("CFG codec %d", b2i(rewardCodecVariant()))
 	steps := int(envInt("VERIF_REWARD_STEPS", 60))
 	script := envStr("VERIF_REWARD_SCRIPT", "")
 	for h := 0; h < n; h++ {
@@ -1765,4 +1768,33 @@ func (s *rwHist) runScript(name string, h int) {
 		s.opAuthzGrant(1, 4, 2, oi(100), -1)
 		s.opWithdraw(4, 20, oi(40), 1)
 	}
+}
+
+// rewardFixedVariant tells which model variant matches the tree: the real CreateCampaignPayload.Validate is probed
+// with a payload whose only irregularity is a negative main-account amount (VERIF_REWARD_FIXED=0|1 overrides).
+func rewardFixedVariant() bool {
+	if v := envStr("VERIF_REWARD_FIXED", ""); v != "" {
+		return v == "1"
+	}
+	mk := func(mainAmt int64) error {
+		p := rewardtypes.CreateCampaignPayload{
+			Promoter: detAddr(0).String(), StartTs: 100, EndTs: 200,
+			Category: rewardtypes.RewardCategory_REWARD_CATEGORY_SIGNUP, RewardType: rewardtypes.RewardType_REWARD_TYPE_SIGNUP,
+			RewardAmountType: rewardtypes.RewardAmountType_REWARD_AMOUNT_TYPE_FIXED,
+			RewardAmount:     &rewardtypes.RewardAmount{MainAccountAmount: sdkmath.NewInt(mainAmt), SubaccountAmount: sdkmath.NewInt(100), UnlockPeriod: 10},
+			IsActive:         true, Meta: "probe",
+		}
+		return p.Validate(50)
+	}
+	return mk(50) == nil && mk(-50) != nil
+}
+
+// rewardCodecVariant: is WithdrawCampaignAuthorization registered as an authz.Authorization in this tree?
+func rewardCodecVariant() bool {
+	if v := envStr("VERIF_REWARD_CODEC", ""); v != "" {
+		return v == "1"
+	}
+	reg := app.MakeEncodingConfig().InterfaceRegistry
+	_, err := reg.Resolve("/" + proto.MessageName(&rewardtypes.WithdrawCampaignAuthorization{}))
+	return err == nil
 }
